@@ -92,6 +92,7 @@ def _spawn(prop, bseed, tier, start, stride, count, wall, hashseed, indices=None
     env = dict(os.environ)
     env['PYTHONHASHSEED'] = str(hashseed)
     env['VERIF_SEED'] = str(bseed)
+    env['VSIM_SCRATCH'] = os.path.join(SCRATCH, 'cases')   # removed by the master together with SCRATCH
     env.setdefault('OMP_NUM_THREADS', '1')
     env.setdefault('OPENBLAS_NUM_THREADS', '1')
     env.setdefault('MKL_NUM_THREADS', '1')
